@@ -266,3 +266,25 @@ class SymInterp(proto.Interp):
 
     def eq(self, a, b):
         return equal(self.nf(a), self.nf(b))
+
+    def truth_of(self, v, st):
+        """truth of a NUMBER is `v != 0`: decided by the sign rules or by a comparison already taken on this path (`n = -t0` after `t0 < 0` is non-zero),
+        so that `if n_before or n_after:` does not fork into the infeasible branch"""
+        if is_t(v) and v[1] in ('Add', 'Sub', 'Neg', 'USub', 'Mult', 'param', 'name', 'call') and not self.is_array(v):
+            try:
+                d = self.nf(v)
+            except Exception:
+                d = None
+            if d is not None and not d.is_zero():
+                sg = self.sign(d)
+                if sg in ('+', '-'):
+                    return [(True, st)]
+                for key, rel_ in st.facts.items():
+                    if isinstance(key, tuple) and key and key[0] == 'rel' and rel_ in ('<', '=', '>'):
+                        try:
+                            dl = self.nf(key[1]) - self.nf(key[2])
+                        except Exception:
+                            continue
+                        if equal(d, dl) or equal(d, -dl):
+                            return [(rel_ != '=', st)]
+        return super().truth_of(v, st)
